@@ -549,6 +549,11 @@ class Schema(ResolverMap):
             nodes=self.nodes,
         )
 
+        # Types which are not reachable from the root types (such as object
+        # types only used as implementers of an interface) must be kept too.
+        for type_name, type_ in self.types.items():
+            cloned.types.setdefault(type_name, type_)
+
         cloned._replace_types_and_directives(
             types={
                 t.name: copy.copy(t)
